@@ -370,6 +370,49 @@ fn repeat_blind_proof<X: Sx>(ctx: &Ctx, idx: u64, l: usize, m: usize, n: usize) 
     extraction(ctx, &origin, &ts, &e, &hidden);
 }
 
+/// random key pairs and blind factors drawn on many threads at the same moment: pooled over all threads nothing repeats
+/// (a shared generator that is cloned, refilled or rewound under contention hands the same material out twice)
+fn concurrent_material<X: Sx>(ctx: &Ctx, idx: u64, threads: usize, per: usize) {
+    let origin = format!("concurrent-random/{}/s{}", name::<X>(), idx);
+    ctx.distinct(&origin);
+    let barrier = Barrier::new(threads);
+    let pool: Mutex<HashMap<Vec<u8>, (usize, &'static str)>> = Mutex::new(HashMap::new());
+    let scn = current_scenario();
+    std::thread::scope(|sc| {
+        for t in 0..threads {
+            let (barrier, pool, scn, origin) = (&barrier, &pool, &scn, &origin);
+            sc.spawn(move || {
+                set_scenario(scn);
+                barrier.wait();
+                let mut mine: Vec<(Vec<u8>, &'static str)> = Vec::with_capacity(per * 2);
+                let m = ctx.call("KeyPair::random x N", origin, None, || {
+                    for _ in 0..per {
+                        let kp = Kp::<X>::random().map_err(|e| format!("{e:?}"))?;
+                        mine.push((kp.private_key().to_bytes().to_vec(), "sk"));
+                        mine.push((BlindFactor::random().to_bytes().to_vec(), "blind-factor"));
+                    }
+                    Ok::<_, String>(())
+                });
+                if !m.outcome.is_ok() {
+                    ctx.violation("C07:KeyPair::random-failed", json!({"outcome":m.outcome.short()}));
+                }
+                let mut p = pool.lock().unwrap();
+                for (v, kind) in mine {
+                    if v.iter().all(|b| *b == 0) {
+                        ctx.violation("C07:zero-random-material", json!({"kind":kind,"thread":t}));
+                    }
+                    if let Some((t0, k0)) = p.get(&v) {
+                        ctx.violation(&format!("C07:repeated-random-material/{}~{}", k0, kind), json!({"threads":[t0, &t],"value":hx_full(&v)}));
+                    } else {
+                        p.insert(v, (t, kind));
+                    }
+                }
+            });
+        }
+    });
+    ctx.count("concurrent_random_values_pooled", pool.lock().unwrap().len() as u64);
+}
+
 fn random_material<X: Sx>(ctx: &Ctx, idx: u64, n: usize) {
     let origin = format!("random/{}/s{}", name::<X>(), idx);
     ctx.distinct(&origin);
@@ -499,6 +542,10 @@ pub fn scenarios(ctx: &Ctx) -> Vec<Scenario> {
         let d: Vec<usize> = (0..l).filter(|i| (rep >> i) & 1 == 1).collect();
         let (d1, d2) = (d.clone(), d);
         both!(format!("mixed/{rep}"), |c, i| repeat_proof::<Sha>(c, i + 1000, l, d1, 4, 1), repeat_proof::<Shake>(c, i + 1000, l, d2, 4, 1));
+    }
+    {
+        let per = ctx.t(1200usize, 8000usize);
+        both!("concurrent-random/16threads", |c, i| concurrent_material::<Sha>(c, i, 16, per), concurrent_material::<Shake>(c, i, 16, per));
     }
     for rep in 0..ctx.t(2, 8) {
         both!(format!("random/{rep}"), |c, i| random_material::<Sha>(c, i, 64), random_material::<Shake>(c, i, 64));
